@@ -45,7 +45,19 @@ def grid_cases(draw):
     seed = draw(st.integers(0, 10**6))
     nextra = draw(st.integers(0, 3))
     custom = draw(st.booleans())
-    case = dict(nr=nr, nc=nc, east=east, north=north, nvars=nvars, seed=seed, nextra=nextra,
+    # axis dtypes may differ between the two directions (integer pixel indices against float positions, float32 against float64)
+    east_dtype, north_dtype = draw(st.sampled_from(["float64", "float64", "int64", "float32", "int32"])), draw(st.sampled_from(["float64", "float64", "int64", "float32", "int32"]))
+    if east_dtype.startswith("int"):
+        east = [float(int(east[0])) + 3 * k * (1 if east[-1] >= east[0] else -1) for k in range(len(east))]
+    if north_dtype.startswith("int"):
+        north = [float(int(north[0])) + 2 * k * (1 if north[-1] >= north[0] else -1) for k in range(len(north))]
+    if east_dtype == "float32":
+        east = [float(np.float32(v)) for v in east]
+    if north_dtype == "float32":
+        north = [float(np.float32(v)) for v in north]
+    if len(set(east)) < len(east) or len(set(north)) < len(north):
+        east_dtype = north_dtype = "float64"
+    case = dict(nr=nr, nc=nc, east=east, north=north, nvars=nvars, seed=seed, nextra=nextra, east_dtype=east_dtype, north_dtype=north_dtype,
                 coords_2d=draw(st.booleans()), int_data=draw(st.booleans()),
                 dims=["y_" + draw(st.sampled_from(["a", "lat", "northing"])), "x_" + draw(st.sampled_from(["b", "lon", "easting"]))] if custom else None,
                 names=["var%d" % k for k in range(nvars)] if custom or nvars > 3 else None,
@@ -67,8 +79,12 @@ def default_names(n):
     return [("scalars",), ("east_component", "north_component"), ("east_component", "north_component", "vertical_component")][n - 1]
 
 
+def axes_of(case):
+    return np.array(case["east"], dtype=case.get("east_dtype", "float64")), np.array(case["north"], dtype=case.get("north_dtype", "float64"))
+
+
 def build_inputs(case):
-    east, north = np.array(case["east"]), np.array(case["north"])
+    east, north = axes_of(case)
     if case["coords_2d"]:
         ee, nn = np.meshgrid(east, north)
         coords = [ee, nn]
@@ -88,7 +104,7 @@ def build_inputs(case):
 
 def check_grid(case, ctx):
     coords, data, names, extra_names = build_inputs(case)
-    east, north = np.array(case["east"]), np.array(case["north"])
+    east, north = axes_of(case)
     kw = {}
     dims = ("northing", "easting")
     if case["dims"] is not None:
@@ -140,7 +156,8 @@ def check_grid(case, ctx):
         ctx.check(np.array_equal(t2[names[0]].values, data[0].ravel()) and np.array_equal(t2[dims[1]].values, ee.ravel())
                   and np.array_equal(t2[dims[0]].values, nn.ravel()), "grid_to_table of a DataArray misplaces values")
     ctx.label("vars%d" % case["nvars"], "extra%d" % case["nextra"], "coords2d" if case["coords_2d"] else "coords1d",
-              "custom_dims" if case["dims"] else "default_dims", "int" if case["int_data"] else "float")
+              "custom_dims" if case["dims"] else "default_dims", "int" if case["int_data"] else "float",
+              "axes_same_dtype" if case.get("east_dtype") == case.get("north_dtype") else "axes_mixed_dtype")
     if case["nr"] == 1 or case["nc"] == 1:
         ctx.label("single_row_or_col")
     ctx.nt(case["nr"] >= 2 and case["nc"] >= 2 and case["nr"] != case["nc"])
@@ -162,7 +179,7 @@ def table_cases(draw):
 
 def check_table(case, ctx):
     """grids built directly with xarray (not through verde), coordinates declared in either order"""
-    east, north = np.array(case["east"]), np.array(case["north"])
+    east, north = axes_of(case)
     dims = tuple(case["dims"]) if case["dims"] else ("northing", "easting")
     nvars = case["nvars"]
     names = case["names"] or list(default_names(nvars))
